@@ -141,6 +141,10 @@ type Engine struct {
 	anyOrder    bool
 	clockPinned bool
 	fmtLenient  bool
+	gzWriters   map[*Backing]*gzW
+	gzReaders   map[*Backing]*gzR
+	gzSpin      int
+	blobs       map[int]*Blob
 	keepTimers  bool
 	jsonHavoc   func(e *Engine, fr *frame, data Slice, dst Iface) Value
 	syncMaps    map[*Backing]map[int]*MapObj
@@ -245,6 +249,22 @@ func (e *Engine) pinTerm(a, k *Term) {
 		return
 	}
 	e.pins[a.ID] = k
+	// x + y == k with one side already known  =>  the other side is known
+	if a.Op == OpAdd {
+		e.substMemo = map[int]*Term{}
+		x, y := e.subst(a.A[0]), e.subst(a.A[1])
+		if y.IsConst() && !x.IsConst() {
+			e.pinTerm(a.A[0], e.tb.Const(a.S.W, k.C-y.C))
+			if x != a.A[0] {
+				e.pinTerm(x, e.tb.Const(a.S.W, k.C-y.C))
+			}
+		} else if x.IsConst() && !y.IsConst() {
+			e.pinTerm(a.A[1], e.tb.Const(a.S.W, k.C-x.C))
+			if y != a.A[1] {
+				e.pinTerm(y, e.tb.Const(a.S.W, k.C-x.C))
+			}
+		}
+	}
 	// see through extensions: zext(x) == k  =>  x == k (when it fits)
 	if (a.Op == OpZExt || a.Op == OpSExt) && a.A[0].S.K == KBV {
 		in := a.A[0]
@@ -556,7 +576,12 @@ func (e *Engine) mkTape(kind, label string, m Model, msg string) *Tape {
 func (e *Engine) Assert(label string, c *Term, msg string) {
 	if e.inReplay() {
 		// already decided by the path that created this prefix
-		e.addPC(c)
+		if !c.IsTrue() {
+			e.learn(c)
+			if !e.subst(c).IsTrue() {
+				e.solver.Assert(c)
+			}
+		}
 		return
 	}
 	if c.IsTrue() || e.subst(c).IsTrue() {
@@ -574,6 +599,7 @@ func (e *Engine) Assert(label string, c *Term, msg string) {
 			viol = m
 		case "unsat":
 			e.res.AssertsOK++
+			e.learn(c) // implied by the path condition: keep pins identical to replay mode
 			return
 		default:
 			e.event(Event{Kind: "inconclusive", Label: label, Msg: "solver unknown on assertion"})
@@ -673,6 +699,7 @@ func (e *Engine) RunPath(entry *ssa.Function, item WorkItem) (res *PathResult) {
 	e.known = nil
 	e.allocLimit = 0
 	e.nblob = 0
+	e.blobs = nil
 	e.sched = nil
 	e.threads = nil
 	e.aborting = false
@@ -686,6 +713,7 @@ func (e *Engine) RunPath(entry *ssa.Function, item WorkItem) (res *PathResult) {
 	e.anyOrder = false
 	e.clockPinned = false
 	e.syncMaps = nil
+	e.gzWriters, e.gzReaders, e.gzSpin = nil, nil, 0
 	e.shared = map[*Backing]bool{}
 	e.harness = entry.Name()
 	e.res = &PathResult{Funcs: map[string]bool{}}
